@@ -29,6 +29,8 @@ structure Codec where
   len : σ → Option (σ × R Val) := fun _ => none
   /-- `obj[i]` (`__getitem__`) for an integer index -/
   getitem : σ → Int → Option (σ × R Val) := fun _ _ => none
+  /-- effect of `for x in obj: pass` on the state (the classes that keep an iteration cursor `_index`) -/
+  iter : σ → σ := fun s => s
 
 def resStr : R Val → String
   | .ok v => "ok:" ++ toString v
@@ -74,7 +76,7 @@ def stepOp (c : Codec) (s : c.σ) (dirty : Bool) (op : String) : c.σ × Bool ×
         | .ok _ => (s', false, "ok")
         | .error e => (s', true, "err:" ++ e.name)
   | ["obs"] => if dirty then (s, true, "?") else (s, false, toString (c.obs s))
-  | ["iter"] => (s, dirty, if dirty then "?" else "ok")   -- `for x in obj: pass`: no observable effect
+  | ["iter"] => (c.iter s, dirty, if dirty then "?" else "ok")   -- `for x in obj: pass`: at most the cursor moves
   | "call" :: m :: args =>
     match parseVals args with
     | none => (s, dirty, "bad-op")
